@@ -203,6 +203,12 @@ func Zairy(ZR, ZI float64, ID, KODE int) (AIR, AII float64, NZ, IERR int) {
 	if IERR != 0 {
 		return
 	}
+	if ZI == 0 {
+		// On the real axis the algorithm assumes the principal square root
+		// with a non-negative imaginary part, as the Fortran ZSQRT returns.
+		// cmplx.Sqrt honours the sign of zero, so make a negative zero positive.
+		ZI = 0
+	}
 	AZ = cmplx.Abs(complex(ZR, ZI))
 	TOL = math.Max(dmach[4], 1.0e-18)
 	FID = float64(ID)
